@@ -29,6 +29,7 @@ fn c01_spec() -> CheckSpec {
             "position-restricted siblings (RESERVED in RECORD_LAYOUT) are generated in ascending position order: the writer's documented reordering is an input precondition, not a drift",
             "an Environment step (CRLF conversion, re-encoding) resets the baseline; the property says nothing about third-party rewrites",
             "API-built models use finite floats and identifier-syntax names only",
+            "the integer literal -0 is not generated (accepted by signed members only, written as 0 which unsigned members accept too; inside IF_DATA that can move the value into a neighbouring unsigned sequence on reload)",
         ],
         real_components: vec!["a2lfile: tokenizer, loader (decoding, BOM), parser, generated parsers/writers, writer, ifdata, a2ml, ItemList", "std Read::read_to_end retry/growth loop"],
         stubbed_components: vec!["file system (in-memory VFS behind cfg(a2lfile_verif))", "OS randomness feeding std RandomState (getrandom interposer)"],
@@ -160,6 +161,7 @@ fn main() {
         Some("replay") => runner::replay_file(args.get(2).map_or("", String::as_str), &all_checks()),
         Some("gen") => gentool::run(&args[2..]),
         Some("rt") => gentool::roundtrip(&args[2..]),
+        Some("dbgmodpar") => gentool::dbgmodpar(&args[2..]),
         Some("rtfile") => gentool::roundtrip_file(&args[2..]),
         Some("selftest") => match hashseed::selftest() {
             Ok(()) => {
